@@ -147,7 +147,11 @@ def impl(case):
         elif kind == "treeinfo":
             try:
                 ti = DT.build_treeinfo(order)
-                outs.append(["ok", DT._dumps(ti, None), DT._dumps(ti, None)])
+                first = DT._dumps(ti, None)
+                tops = sorted(ti.variants.variants)
+                if len(tops) >= 2:
+                    DT._dumps(ti, tops[-1])          # an earlier dump with another main variant is not content
+                outs.append(["ok", first, DT._dumps(ti, None)])
             except EXC as e:
                 outs.append(["build-error", type(e).__name__])
         else:
